@@ -27,6 +27,7 @@ type slbOp struct {
 	ExpM *int   `json:"expM"`
 	B    int    `json:"b"`
 	D    int    `json:"d"`
+	Keep []int  `json:"keep"` // update: ids present in the new conf (nil = all)
 }
 
 type slbCase struct {
@@ -74,6 +75,29 @@ func newSlbObj(ord, w []int, base string) *slbObj {
 		o.backs[id] = b
 	}
 	return o
+}
+
+// refresh re-reads the backend objects after a reload
+func (o *slbObj) refresh() {
+	o.backs = map[int]*backend.BfeBackend{}
+	o.ord = nil
+	for _, b := range o.brr.VerifBackends() {
+		id, _ := strconv.Atoi(b.Name[1:])
+		o.backs[id] = b
+		o.ord = append(o.ord, id)
+	}
+}
+
+// freshLike builds a new object from o's current ordered weight list (and availability)
+func freshLike(o *slbObj, w []int, base string) *slbObj {
+	o.refresh()
+	f := newSlbObj(o.ord, w, base)
+	for id, b := range o.backs {
+		if fb, ok := f.backs[id]; ok {
+			fb.SetAvail(b.Avail())
+		}
+	}
+	return f
 }
 
 // stickyKey finds a key whose murmur3 hash has residue r modulo the current eligible
@@ -158,9 +182,10 @@ func slbRun() {
 			av[i] = true
 		}
 		obj := newSlbObj(ld.Ord, w, "10.0.0.")
-		var twin *slbObj
+		var twin, fresh *slbObj
 		if c.Twin {
 			twin = newSlbObj(ld.Ord, w, "10.9.9.") // other names/addresses, same ordered weight list
+			fresh = newSlbObj(ld.Ord, w, "10.8.8.") // replaced by a newly built object at every reload
 		}
 		vh.Emit(map[string]interface{}{"ev": "load", "cid": c.ID, "w": pad(w), "av": av})
 		nEvents++
@@ -183,6 +208,8 @@ func slbRun() {
 				if twin != nil {
 					id2, _ := twin.pick(op.Algo, key)
 					ev["b2"] = id2
+					id3, _ := fresh.pick(op.Algo, key)
+					ev["b3"] = id3
 				}
 				if op.ExpM != nil && *op.ExpM >= 0 && id >= 0 && id != *op.ExpM {
 					nDrift++
@@ -197,10 +224,12 @@ func slbRun() {
 				if twin != nil {
 					t := twin.backs[op.B]
 					t.SetAvail(!t.Avail())
+					f := fresh.backs[op.B]
+					f.SetAvail(!f.Avail())
 				}
 				vh.Emit(map[string]interface{}{"ev": "flip", "cid": c.ID, "b": op.B})
 			case "conn":
-				for _, o := range []*slbObj{obj, twin} {
+				for _, o := range []*slbObj{obj, twin, fresh} {
 					if o == nil {
 						continue
 					}
@@ -213,16 +242,43 @@ func slbRun() {
 				vh.Emit(map[string]interface{}{"ev": "conn", "cid": c.ID, "b": op.B, "d": op.D})
 			case "update":
 				w = append([]int{}, op.W...)
-				if !obj.dead {
-					if p := vh.Guard(func() { obj.brr.Update(mkConf(ld.Ord, w, obj.base)) }); p != "" {
-						vh.Emit(map[string]interface{}{"ev": "pick", "cid": c.ID, "algo": "update", "b": -1, "detail": p})
-						continue
+				if obj.dead {
+					continue
+				}
+				// new conf: surviving backends in their current order, then the added ones
+				confOrd := func(o *slbObj) []int {
+					o.refresh()
+					if op.Keep == nil {
+						return o.ord
 					}
+					var out []int
+					for _, id := range o.ord {
+						if inInts(id, op.Keep) {
+							out = append(out, id)
+						}
+					}
+					for _, id := range op.Keep {
+						if !inInts(id, o.ord) {
+							out = append(out, id)
+						}
+					}
+					return out
+				}
+				if p := vh.Guard(func() { obj.brr.Update(mkConf(confOrd(obj), w, obj.base)); obj.refresh() }); p != "" {
+					vh.Emit(map[string]interface{}{"ev": "pick", "cid": c.ID, "algo": "update", "b": -1, "detail": p})
+					continue
 				}
 				if twin != nil && !twin.dead {
-					twin.brr.Update(mkConf(ld.Ord, w, twin.base))
+					twin.brr.Update(mkConf(confOrd(twin), w, twin.base))
+					twin.refresh()
+					fresh = freshLike(obj, w, "10.8.8.")
 				}
-				vh.Emit(map[string]interface{}{"ev": "update", "cid": c.ID, "w": pad(w)})
+				// availability / connection counts of the configured backends as they are after the reload
+				avNow, cnNow := make([]bool, TraceN), make([]int, TraceN)
+				for id, b := range obj.backs {
+					avNow[id-1], cnNow[id-1] = b.Avail(), b.ConnNum()
+				}
+				vh.Emit(map[string]interface{}{"ev": "update", "cid": c.ID, "w": pad(w), "av": avNow, "cn": cnNow})
 			}
 		}
 	})
